@@ -30,6 +30,9 @@ def programs(tier="quick", step=None):
         ("NAMES2", lambda: F.names_pairs()[::4]),
         ("NAMESLIB", lambda: F.names_lib()[::3]),
         ("LIB", lambda: F.lib(tier)),
+        ("CALLARG", lambda: F.callarg(tier)),
+        ("DEADLIB", lambda: F.deadlib(tier)),
+        ("NAMECLASH", lambda: F.names_clash()[::2]),
     ]
     for fam, g in gens:
         for c in g():
